@@ -368,7 +368,8 @@ PROPS = {
                  'the placeholder regular expression (templates are lists of blank-separated parts)'],
         level_text='Lean 4 theorems for all byte strings: the quoted form evaluates (in a model of POSIX word splitting that fails '
                    'on any unquoted metacharacter) to exactly the original text; joined quoted items give one word per item in '
-                   'order; in-context composition; the fish escaper round-trips in a model of fish quoting; the tmux re-quoting '
+                   'order; in-context composition; the word splitting of a whole expanded template ({}, {+}, {q}, literal words) is '
+                   'the list of the texts the placeholders stand for; the fish escaper round-trips in a model of fish quoting; the tmux re-quoting '
                    'is the same function. QuoteEntry / escapeSingleQuote / replacePlaceholder are compared with the model and '
                    'every expansion is handed to the real dash and bash, whose argv must be the original texts.',
         level_note='Partial: the template-level statement is checked per case (model + real shells), not proved; {f} (temp file) '
